@@ -108,7 +108,7 @@ func (req *Request) Write(w io.Writer) (e error) {
 
 	switch req.Cmd {
 
-	case "get", "gets", "delete", "quit", "version", "stats", "flush_all":
+	case "get", "gets", "delete", "quit", "version", "stats", "flush_all", "verbosity":
 		io.WriteString(w, req.Cmd)
 		for _, key := range req.Keys {
 			io.WriteString(w, " "+key)
@@ -126,7 +126,7 @@ func (req *Request) Write(w io.Writer) (e error) {
 		item := req.Item
 		if req.Cmd == "cas" {
 			fmt.Fprintf(w, "%s %s %d %d %d %d%s\r\n", req.Cmd, req.Keys[0], item.Flag,
-				item.Exptime, item.Cas, len(item.Body), noreply)
+				item.Exptime, len(item.Body), item.Cas, noreply)
 		} else {
 			fmt.Fprintf(w, "%s %s %d %d %d%s\r\n", req.Cmd, req.Keys[0], item.Flag,
 				item.Exptime, len(item.Body), noreply)
@@ -372,6 +372,10 @@ func (resp *Response) Read(b *bufio.Reader) error {
 		case "END":
 		case "STORED", "NOT_STORED", "DELETED", "NOT_FOUND":
 		case "OK":
+		case "VERSION":
+			if len(parts) > 1 {
+				resp.Msg = parts[1]
+			}
 
 		case "ERROR", "SERVER_ERROR", "CLIENT_ERROR":
 			if len(parts) > 1 {
